@@ -261,6 +261,8 @@ def finish(pid, prop, tier, seed, results, summaries, problems, wall):
 
     for ln in out_lines:
         print(ln)
+    if unknown:
+        print("unlisted violation signatures: %s" % dict(Counter(r.get("sig") for r in unknown).most_common(40)))
     print("%s %s tier=%s seed=%d: %s; evaluated=%d distinct_nontrivial=%d status=%s wall=%.1fs" % (
         pid, getattr(prop, "TITLE", ""), tier, seed, verdict.upper(), n_eval, len(distinct), dict(by_st), wall))
     if verdict == "inconclusive":
